@@ -148,27 +148,30 @@ Theorem C16_os_environ_unfixed_refuted :
 Proof. exact os_environ_unfixed_refuted. Qed.
 Print Assumptions C16_os_environ_unfixed_refuted.
 
-(* ---- uv_fs_event_start (item 17) ---------------------------------------------------------- *)
-(* on every error return the request / handle / allocation accounting is untouched; the
-   descriptor count grows by at most the loop-owned inotify descriptor (released by
-   uv_loop_close); a kernel watch can be left behind only by the UV_ENOMEM return *)
-Theorem C16_fs_event_start_partial :
+(* ---- uv_fs_event_start (item 17, repaired in /repo by 3625d2b: full statement) ----------------------- *)
+(* every error return leaves the request / handle / allocation accounting AND the kernel watches
+   as before; descriptors too, up to the loop-owned inotify descriptor, which may have been
+   created (io = false) and is released by uv_loop_close; abort only in maybe_resize *)
+Theorem C16_fs_event_start_fault_safe :
   forall io kw nr l w,
   let o := uv_fs_event_start io kw nr l w in
   o_res o = Ret RcOk \/
   (exists s, o_res o = Abort s /\ permitted s = true) \/
   (exists r, o_res o = Ret r /\ r <> RcOk /\ same_accounting l (o_led o) /\
-     (l_fds (o_led o) = l_fds l \/ (io = false /\ l_fds (o_led o) = l_fds l + 1)) /\
-     (l_watch (o_led o) = l_watch l \/ (r = RcErr ENOMEM /\ l_watch (o_led o) = l_watch l + 1))).
-Proof. exact fs_event_start_partial. Qed.
-Print Assumptions C16_fs_event_start_partial.
+     l_watch (o_led o) = l_watch l /\
+     (l_fds (o_led o) = l_fds l \/ (io = false /\ l_fds (o_led o) = l_fds l + 1))).
+Proof. exact fs_event_start_fault_safe. Qed.
+Print Assumptions C16_fs_event_start_fault_safe.
 
-Theorem C16_fs_event_start_watch_refuted :
-  exists (w : world) (l : ledger),
-    o_res (uv_fs_event_start true false false l w) = Ret (RcErr ENOMEM) /\
-    l_watch (o_led (uv_fs_event_start true false false l w)) = l_watch l + 1.
-Proof. exact fs_event_start_watch_witness. Qed.
-Print Assumptions C16_fs_event_start_watch_refuted.
+(* history: before 3625d2b the UV_ENOMEM return left the kernel watch behind (same oracle, the
+   current code does not) *)
+Example C16_fs_event_start_unfixed_watch :
+  o_res (uv_fs_event_start_unfixed true false l0 (mkW [false] [] [])) = Ret (RcErr ENOMEM) /\
+  l_watch (o_led (uv_fs_event_start_unfixed true false l0 (mkW [false] [] []))) = 1 /\
+  o_res (uv_fs_event_start true false false l0 (mkW [false] [] [])) = Ret (RcErr ENOMEM) /\
+  l_watch (o_led (uv_fs_event_start true false false l0 (mkW [false] [] []))) = 0.
+Proof. exact fs_event_start_unfixed_watch_witness. Qed.
+Print Assumptions C16_fs_event_start_unfixed_watch.
 
 (* ---- uv_spawn -------------------------------------------------------------------------------- *)
 (* every error return leaves request / active-handle counters and the allocation ledger as
